@@ -378,3 +378,197 @@ pub fn event_stream(rep: &mut Report, opts: &Opts, prop: &'static str) {
     }
     rep.extra.insert("probe_sites_hit_and_delayed".into(), crate::rec::coverage_json());
 }
+
+// ------------------------------------------------------------------ sink flood (C17)
+
+struct Starter {
+    out: Output<u64>,
+}
+impl Starter {
+    async fn go(&mut self, burst: u64) {
+        self.out.send(burst).await;
+    }
+}
+impl Model for Starter {}
+
+struct Emitter {
+    id: u64,
+    next: u64,
+    out: Output<(u64, u64)>,
+}
+impl Emitter {
+    async fn burst(&mut self, n: u64) {
+        for _ in 0..n {
+            self.out.send((self.id, self.next)).await;
+            self.next += 1;
+        }
+    }
+}
+impl Model for Emitter {}
+
+/// Several emitter models on different worker threads write bursts of
+/// `(writer, seq)` events into ONE `EventBuffer` during the same step (the
+/// buffer's storage grows by reallocation while they contend for it); in half
+/// of the cases the simulation is stepped by a helper thread while the harness
+/// thread drains the buffer concurrently (single reader).
+///
+/// Oracle. Unbounded case (capacity >= everything written): per writer the
+/// events read are exactly 0, 1, 2, ... in order (sending order, nothing lost
+/// or duplicated). Bounded case (small capacity, read only after each step):
+/// at most `capacity` events are retained, per writer they are consecutive and
+/// in order, and the newest event of a writer that is retained is its last one
+/// (the buffer keeps the most recent events, FIFO). Sound for any interleaving
+/// of the writers because only per-writer sub-sequences are judged.
+pub fn sink_flood_case(seed: u64, threads: usize, ctx: (String, String)) -> Result<(u64, u64, bool), (String, String)> {
+    use nexosim::ports::EventBuffer;
+    let mut rng = Rng::new(seed);
+    rec::reset(&Default::default());
+    rec::set_context(&ctx.0, &ctx.1);
+    let miri = cfg!(miri);
+    let nem = rng.range(2, if miri { 3 } else { 8 });
+    let burst = if miri { 6 } else { *rng.pick(&[200u64, 1000, 2000]) };
+    let rounds = if miri { 2 } else { rng.range(3, 10) };
+    let bounded = rng.chance(1, 3);
+    let total = nem * burst * rounds;
+    let cap = if bounded { *rng.pick(&[1usize, 3, 16, 64]) } else { total as usize + 8 };
+    let mut sink: EventBuffer<(u64, u64)> = EventBuffer::with_capacity(cap);
+    let mut starter = Starter { out: Output::default() };
+    let mut init = SimInit::with_num_threads(threads);
+    for e in 0..nem {
+        let mb: Mailbox<Emitter> = Mailbox::new();
+        starter.out.connect(Emitter::burst, &mb);
+        let mut out = Output::default();
+        out.connect_sink(&sink);
+        init = init.add_model(Emitter { id: e, next: 0, out }, mb, format!("emitter{}", e));
+    }
+    let smb: Mailbox<Starter> = Mailbox::new();
+    let saddr = smb.address();
+    init = init.add_model(starter, smb, "starter");
+    rec::in_call(true);
+    let (mut simu, _sched) = match init.init(MonotonicTime::EPOCH) {
+        Ok(x) => x,
+        Err(e) => return Err(("C17/flood-init-failed".into(), format!("{:?}", e))),
+    };
+    rec::in_call(false);
+    let concurrent_reader = !bounded && rng.chance(1, 2) && !miri;
+    let mut per_writer: Vec<Vec<u64>> = vec![Vec::new(); nem as usize];
+    let mut fail: Option<(String, String)> = None;
+    let mut check_bounded = |got: &Vec<(u64, u64)>, round: u64, fail: &mut Option<(String, String)>| {
+        if got.len() > cap {
+            *fail = Some(("C17/buffer-holds-more-than-capacity".into(), format!("round {}: {} events read from a buffer of capacity {}", round, got.len(), cap)));
+            return;
+        }
+        let written = nem * burst;
+        if (got.len() as u64) < (cap as u64).min(written) {
+            *fail = Some(("C17/buffer-lost-events".into(), format!("round {}: only {} events retained although {} were written into a buffer of capacity {}", round, got.len(), written, cap)));
+            return;
+        }
+        for w in 0..nem {
+            let seqs: Vec<u64> = got.iter().filter(|e| e.0 == w).map(|e| e.1).collect();
+            if seqs.windows(2).any(|p| p[1] != p[0] + 1) {
+                *fail = Some(("C17/sink-order-differs-from-sending-order".into(), format!("round {}: events of writer {} retained by the bounded buffer are {:?} (must be consecutive and in sending order)", round, w, seqs)));
+                return;
+            }
+        }
+        // The very last event read is the last event of its writer.
+        if let Some((w, s)) = got.last() {
+            if *s != round * burst - 1 {
+                *fail = Some(("C17/buffer-did-not-retain-most-recent-events".into(), format!("round {}: the newest retained event is ({}, {}) but writer {} wrote up to {}", round, w, s, w, round * burst - 1)));
+            }
+        }
+    };
+    if concurrent_reader {
+        let done = Arc::new(std::sync::atomic::AtomicBool::new(false));
+        let done2 = done.clone();
+        let stepper = std::thread::spawn(move || {
+            let mut res = Ok(());
+            for _ in 0..rounds {
+                if let Err(e) = simu.process_event(Starter::go, burst, &saddr) {
+                    res = Err(format!("{:?}", e));
+                    break;
+                }
+            }
+            done2.store(true, Relaxed);
+            drop(simu);
+            res
+        });
+        rec::in_call(true);
+        loop {
+            let finished = done.load(std::sync::atomic::Ordering::Acquire);
+            for (w, s) in sink.by_ref() {
+                per_writer[w as usize].push(s);
+            }
+            rec::progress();
+            if finished {
+                break;
+            }
+            std::thread::yield_now();
+        }
+        rec::in_call(false);
+        if let Ok(Err(e)) = stepper.join() {
+            return Err(("C17/flood-step-failed".into(), e));
+        }
+    } else {
+        for round in 1..=rounds {
+            rec::in_call(true);
+            let r = simu.process_event(Starter::go, burst, &saddr);
+            rec::in_call(false);
+            if let Err(e) = r {
+                return Err(("C17/flood-step-failed".into(), format!("{:?}", e)));
+            }
+            let got: Vec<(u64, u64)> = sink.by_ref().collect();
+            if bounded {
+                check_bounded(&got, round, &mut fail);
+                if fail.is_some() {
+                    break;
+                }
+            } else {
+                for (w, s) in got {
+                    per_writer[w as usize].push(s);
+                }
+            }
+        }
+        rec::in_call(true);
+        drop(simu);
+        rec::in_call(false);
+    }
+    if let Some(f) = fail {
+        return Err(f);
+    }
+    if !bounded {
+        for (w, seqs) in per_writer.iter().enumerate() {
+            let exp = burst * rounds;
+            if let Some(i) = seqs.iter().enumerate().position(|(i, s)| *s != i as u64) {
+                let sig = if seqs.len() as u64 == exp { "C17/sink-order-differs-from-sending-order" } else { "C17/sink-content-differs-from-sent-events" };
+                return Err((sig.into(), format!("writer {} ({} emitters, {} threads, concurrent reader {}): event number {} read from the buffer is seq {} ({} of {} events arrived): events written to an open buffer were lost, duplicated or reordered", w, nem, threads, concurrent_reader, i, seqs[i], seqs.len(), exp)));
+            }
+            if seqs.len() as u64 != exp {
+                return Err(("C17/sink-content-differs-from-sent-events".into(), format!("writer {} ({} emitters, {} threads, concurrent reader {}): {} of {} events written to an open buffer of capacity {} arrived", w, nem, threads, concurrent_reader, seqs.len(), exp, cap)));
+            }
+        }
+    }
+    Ok((total, nem, concurrent_reader))
+}
+
+pub fn sink_flood(rep: &mut Report, opts: &Opts) {
+    let n = if cfg!(miri) { 2 } else { opts.n(192, 4800) };
+    let base = h2(opts.seed, 0xC17_F100);
+    for case in 0..n {
+        if !opts.mine(case) {
+            continue;
+        }
+        let cs = h2(base, case);
+        let threads = if cfg!(miri) { 2 } else { [2usize, 4, 8, 16][(case % 4) as usize] };
+        let replay = opts.replay_args("flood", case);
+        rep.evaluations += 1;
+        match sink_flood_case(cs, threads, ("C17/hang/driver-call-never-returns".into(), replay.clone())) {
+            Ok((total, nem, conc)) => {
+                rep.count("flood_events_written_by_concurrent_models", total);
+                rep.count("flood_emitters", nem);
+                rep.count("flood_cases_with_concurrent_reader", conc as u64);
+                rep.distinct.insert(h2(cs, 2));
+            }
+            Err((sig, detail)) => rep.violation(sig, format!("[flood] {}", detail), replay),
+        }
+    }
+}
